@@ -1,4 +1,5 @@
-"""check driver: select the units of a property, run them in a process pool, write evidence"""
+"""check driver: phase A runs the symbolic execution of every selected unit (one process per unit),
+phase B discharges all obligations of all units in one process pool"""
 import argparse
 import json
 import multiprocessing as mp
@@ -28,11 +29,11 @@ def load_all():
 _G = {}
 
 
-def _job(args):
+def _symex_job(args):
+    """phase A: symbolic execution of one unit -> obligations (SMT-LIB2 text for the non-trivial ones)"""
     unit_name, tier = args
     from .engine import Engine
     from .core import EngineError
-    from .solve import discharge, model_to_json
     import z3
     t0 = time.time()
     out = {'unit': unit_name, 'obligations': [], 'error': None}
@@ -43,21 +44,17 @@ def _job(args):
         unit = [u for u in units if u.name == unit_name][0]
         eng = Engine(repo, schema, units, spec_funcs, spec_consts, unit)
         res = eng.run()
-        cfg = TIERS[tier]
-        n_bad = 0
-        for ob in res.obligations:
-            # once a unit is known to be violated, do not spend the full budget on its other obligations
-            tmo = cfg['timeout_ms'] if n_bad == 0 else min(cfg['timeout_ms'], 4000)
-            discharge(ob, tmo, n_bad == 0, cfg['both'])
-            if ob.status == 'refuted':
-                n_bad += 1
-            o = {'name': ob.name(), 'label': ob.label, 'kind': ob.kind, 'status': ob.status, 'backend': ob.backend,
-                 'time': round(ob.time, 4), 'line': ob.line, 'path': ob.path, 'props': ob.props, 'info': ob.info}
-            if ob.status == 'refuted' and ob.model is not None:
-                o['model'] = model_to_json(ob.model)
-            if ob.status in ('refuted', 'unknown'):
-                o['goal'] = str(ob.goal)[:1500]
-                o['reason'] = getattr(ob, 'reason', None)
+        for k, ob in enumerate(res.obligations):
+            o = {'idx': k, 'name': ob.name(), 'label': ob.label, 'kind': ob.kind, 'status': ob.status, 'backend': ob.backend,
+                 'time': 0.0, 'line': ob.line, 'path': ob.path, 'props': ob.props, 'info': ob.info, 'unit': unit_name}
+            if ob.status is None or ob.kind == 'cover':
+                s = z3.Solver()
+                for f in ob.pc:
+                    s.add(f)
+                if ob.kind != 'cover':
+                    s.add(z3.Not(ob.goal))
+                o['smt2'] = s.to_smt2()
+                o['status'] = None
             out['obligations'].append(o)
         out.update({'paths': res.paths, 'paths_ended': res.paths_ended, 'fingerprints': res.fingerprints,
                     'inlined': sorted(res.inlined), 'by_contract': sorted(res.by_contract), 'opaque': sorted(res.opaque),
@@ -74,13 +71,50 @@ def _job(args):
     return out
 
 
+def _solve_job(args):
+    """phase B: one obligation"""
+    o, timeout_ms, use_cvc5, both = args
+    from .solve import solve_smt2
+    try:
+        return solve_smt2(o, timeout_ms, use_cvc5, both)
+    except Exception as e:      # pragma: no cover
+        o['status'] = 'unknown'
+        o['reason'] = 'solver job failed: %s' % e
+        o.pop('smt2', None)
+        return o
+
+
 def run_units(unit_names, tier, jobs=None):
     jobs = jobs or min(16, os.cpu_count() or 4)
-    if len(unit_names) == 1 or jobs == 1:
-        return [_job((n, tier)) for n in unit_names]
+    cfg = TIERS[tier]
     ctx = mp.get_context('fork')
-    with ctx.Pool(min(jobs, len(unit_names))) as pool:
-        return list(pool.imap_unordered(_job, [(n, tier) for n in unit_names], chunksize=1))
+    # ---- phase A
+    if len(unit_names) == 1 or jobs == 1:
+        results = [_symex_job((n, tier)) for n in unit_names]
+    else:
+        with ctx.Pool(min(jobs, len(unit_names))) as pool:
+            results = list(pool.imap_unordered(_symex_job, [(n, tier) for n in unit_names], chunksize=1))
+    # ---- phase B
+    todo = []
+    for r in results:
+        for o in r['obligations']:
+            if o.get('smt2') is not None:
+                todo.append(o)
+    solved = {}
+    if todo:
+        work = [(o, cfg['timeout_ms'], True, cfg['both']) for o in todo]
+        if jobs == 1:
+            done = [_solve_job(w) for w in work]
+        else:
+            with ctx.Pool(min(jobs, max(1, len(work)))) as pool:
+                done = list(pool.imap_unordered(_solve_job, work, chunksize=2))
+        for o in done:
+            solved[(o['unit'], o['idx'])] = o
+    for r in results:
+        r['obligations'] = [solved.get((o['unit'], o['idx']), o) for o in r['obligations']]
+        for o in r['obligations']:
+            o.pop('smt2', None)
+    return results
 
 
 def main(argv=None):
